@@ -3,13 +3,19 @@ import RisorModel.C07.Model
 /-!
 Line-protocol front end of the C07 model (requests after the leading `C07` field).
 
-  hist <inv> <inv> …      inv  = kind:beh:depth:pend:v:bump:bg:imp:pre:during
+  hist <inv> <inv> …      inv  = kind:beh:depth:pend:v:bump:bg:imp:pre:during:ctx:grows:sched
                           kind ∈ run|runcode|call, or `runcode@j` (re-supply the code object compiled
                           for invocation j)   beh ∈ normal|err|panic|overflow|selfcancel
                           bg ∈ 0|1   imp ∈ 0|1|2|3 (bit 0: import hostmod, bit 1: import fmod), with
                           the suffix `m` when the ending happens inside fmod's top-level code
                           pre, during = `_` (empty) or context ids joined by `.`
-  reply: ok <res> <res> … res  = implOutcome,sp,fp,halt,running,startCount,haltBeforeStart,specOutcome,staleFires,fpAtLeaf,importFails,leafReached,moduleCodeRan,len(vm.modules)
+                          ctx = `_` (a context created for the invocation, id = its index) or the id of
+                          the context OBJECT it is handed (shared by all invocations naming it)
+                          grows = `_` or ids of the code objects the host compiles one more snippet
+                          into before the invocation starts     sched ∈ e|f|l (when the watcher of an
+                          already cancelled context stores halt: before the first poll | after the
+                          first instruction | before RunCode's reset clears halt again - OBSERVED)
+  reply: ok <res> <res> … res  = implOutcome,sp,fp,halt,running,startCount,haltBeforeStart,specOutcome,staleFires,fpAtLeaf,importFails,leafReached,moduleCodeRan,len(vm.modules),contextAlreadyCancelled,lostFires,executedGeneration,currentGeneration
 -/
 namespace Risor.C07
 
@@ -33,9 +39,12 @@ def parseBeh : String → Option Beh
 def parseIds (s : String) : Option (List Nat) :=
   if s = "_" then some [] else (s.splitOn ".").mapM String.toNat?
 
+def parseSched : String → Option Sched
+  | "e" => some .early | "f" => some .first | "l" => some .lost | _ => none
+
 def parseInv (s : String) : Option Inv :=
   match s.splitOn ":" with
-  | [k, b, d, p, v, bu, bg, im, pre, du] => do
+  | [k, b, d, p, v, bu, bg, im, pre, du, cx, gr, sc] => do
     let (kind, same) ← parseKind k
     let (imp, fimp, mfail) ← parseImp im
     let beh ← parseBeh b
@@ -45,7 +54,11 @@ def parseInv (s : String) : Option Inv :=
     let bump ← bu.toNat?
     let pre ← parseIds pre
     let during ← parseIds du
-    pure { kind, beh, depth, pend, v, bump, bg := bg == "1", imp, pre, during, fimp, mfail, same }
+    let ctx ← (if cx = "_" then some none else cx.toNat?.map some)
+    let grows ← parseIds gr
+    let sched ← parseSched sc
+    pure { kind, beh, depth, pend, v, bump, bg := bg == "1", imp, pre, during, fimp, mfail, same,
+           ctx, grows, sched }
   | _ => none
 
 def showOutcome : Outcome → String
@@ -67,9 +80,11 @@ def resFrom (s : St) (k : Nat) : List Inv → List String
     let r := invoke s k inv
     let line := String.intercalate ","
       [showOutcome r.2, toString r.1.sp, toString r.1.fp, b01 r.1.halt, b01 r.1.running,
-       toString r.1.startCount, b01 pre.halt, showOutcome (specOutcome inv s.acc),
+       toString r.1.startCount, b01 pre.halt, showOutcome (specAt s k inv),
        b01 (staleFires s k inv), toString (leafFp s k inv), b01 (importFails s k inv),
-       b01 (leafReached s k inv), b01 (modRan s k inv), toString (modCount r.1)]
+       b01 (leafReached s k inv), b01 (modRan s k inv), toString (modCount r.1),
+       b01 (dead s k inv), b01 (lostFires s k inv), toString (bodyState s k inv).cur,
+       toString (curGen s k inv)]
     line :: resFrom r.1 (k + 1) rest
 
 def handle : List String → String
